@@ -149,6 +149,10 @@ def generate(seed, tier="quick"):
             {"t": "stmt", "text": "rec('idz', lambda: snapshot_alias(_oz) is _oz)"},
             {"t": "stmt", "text": "rec('idz2', lambda: len(snapshot_alias([1, 2])) == 2)"}]})
     route = sub(seed, "route").choice(ROUTES)
+    wrng = sub(seed, "twin")
+    if wrng.random() < 0.12 and len(prog["files"]) == 1:
+        # a second module with the same text layout whose names resolve to other data
+        W.add_twin_file(prog, wrng, vary=True)
     return {"program": prog, "route": route, "ci_var": sub(seed, "ci").choice(drivers.CI_VARS), "plugin_active": sub(seed, "pa").random() < 0.3}
 
 
